@@ -85,12 +85,14 @@ STREAM_FLAGS = 0x07
 STREAM_COUNT_MAX = 0x1000000000000000
 UDP_HEADER_SIZE = 8
 MAX_PENDING_RETIRES = 100
+MAX_ACK_RANGES = 32
 MAX_PENDING_CRYPTO = 524288  # in bytes
 
 NetworkAddress = Any
 
 # frame sizes
-ACK_FRAME_CAPACITY = 64  # FIXME: this is arbitrary!
+ACK_FRAME_CAPACITY = 1 + 4 * UINT_VAR_MAX_SIZE  # + ACK_RANGE_CAPACITY per extra range
+ACK_RANGE_CAPACITY = 2 * UINT_VAR_MAX_SIZE
 APPLICATION_CLOSE_FRAME_CAPACITY = 1 + 2 * UINT_VAR_MAX_SIZE  # + reason length
 CONNECTION_LIMIT_FRAME_CAPACITY = 1 + UINT_VAR_MAX_SIZE
 HANDSHAKE_DONE_FRAME_CAPACITY = 1
@@ -1087,6 +1089,10 @@ class QuicConnection:
                     space.largest_received_packet = packet_number
                     space.largest_received_time = now
                 space.ack_queue.add(packet_number)
+                # limit the number of ACK ranges we track (RFC 9000 section 13.2.4),
+                # forgetting the oldest ones, so that an ACK frame always fits
+                while len(space.ack_queue) > MAX_ACK_RANGES:
+                    space.ack_queue.shift()
                 if is_ack_eliciting and space.ack_at is None:
                     space.ack_at = now + self._ack_delay
 
@@ -3243,7 +3249,8 @@ class QuicConnection:
 
         buf = builder.start_frame(
             QuicFrameType.ACK,
-            capacity=ACK_FRAME_CAPACITY,
+            capacity=ACK_FRAME_CAPACITY
+            + (len(space.ack_queue) - 1) * ACK_RANGE_CAPACITY,
             handler=self._on_ack_delivery,
             handler_args=(space, space.largest_received_packet),
         )
